@@ -3,6 +3,7 @@
 package classifier
 
 import (
+	"bytes"
 	"fmt"
 	"math"
 	"sort"
@@ -75,7 +76,9 @@ func levStr(l, band int) string {
 // oracleC03 checks thresholds, ordering and well-formedness.
 func oracleC03(cl *Classifier, in []byte, toks []vTok, res Results) []string {
 	var out []string
-	nl := 1 + strings.Count(string(in), "\n")
+	// no token can lie on a later line than the last byte that is not white space
+	last := len(bytes.TrimRight(in, " \t\r\n\f\v"))
+	nl := 1 + strings.Count(string(in[:last]), "\n")
 	if res.TotalInputLines < 0 || res.TotalInputLines > nl {
 		out = append(out, fmt.Sprintf("TotalInputLines %d outside 0..%d", res.TotalInputLines, nl))
 	}
@@ -313,7 +316,7 @@ func corpusScale(c *vrep.Ctx, prop string) {
 		}
 		r.Note = map[string]interface{}{"id": cs.ID, "msgs": msgs, "matches": nm, "res": vFmt(res)}
 	}
-	c.Run(vSplitExplorer(c, 0, 2), body, func(r *vx.Run) {
+	c.Run(vSplitExplorer(c, 0, c.ParamInt("split", 2)), body, func(r *vx.Run) {
 		if r.Note["dup"] != nil {
 			c.R.Evaluations--
 			return
